@@ -122,8 +122,11 @@ pub fn open_and_continue(dir: &str, cfg: &Cfg, do_cont: bool) -> Value {
         };
         let entry = json!([enc_u64(id.0), enc_u64(id.1), "cont", 4]);
         let fid = 900_000_000 + n_before as u64;
+        let mut obs1 = json!({});
         let r = catch_unwind(AssertUnwindSafe(|| -> Result<(), std::io::Error> {
             rl.append([(id, make_payload("cont", 4))])?;
+            // every live entry must be readable right away, whatever the cache limits are
+            obs1 = observe(&rl, dir);
             rl.flush(Some(Cb { fid, sent: false }))?;
             Ok(())
         }));
@@ -157,7 +160,7 @@ pub fn open_and_continue(dir: &str, cfg: &Cfg, do_cont: bool) -> Value {
         let ok = res1 == "ok" && res2 == "ok";
         cont = json!({"res": if ok { "ok".to_string() } else { format!("{}|{}", res1, res2) },
                       "rc": if ok { "ok" } else if res1.starts_with("panic") || res2.starts_with("panic") { "panic" } else { "err" },
-                      "entry": entry, "obs2": obs2});
+                      "entry": entry, "obs1": obs1, "obs2": obs2});
     } else {
         let _ = catch_unwind(AssertUnwindSafe(move || drop(rl)));
     }
@@ -254,11 +257,18 @@ pub fn crash_probes(fslog: &[FsRec], dirkey: &str, cfg: &Cfg, opts: &Value, seed
                 let before = image::dir_digest(&dir);
                 let mut c2 = cfg.clone();
                 c2.tr = Some(tr);
+                // every other image is recovered under unlimited chunk limits (the configuration may change
+                // between runs): the recovered last chunk then stays the open chunk when writes continue
+                let wide = k % 2 == 1;
+                if wide {
+                    c2.mr = None;
+                    c2.ms = None;
+                }
                 let r = open_and_continue(&dir, &c2, do_cont);
                 let res = r["res"].as_str().unwrap_or("").to_string();
                 let same = res == "ok" || before == image::dir_digest(&dir);
                 let _ = shim::unobserved(|| std::fs::remove_dir_all(&dir));
-                let mut ev = json!({"e": "probe", "kind": "crash", "pos": pos, "img": desc, "tr": tr,
+                let mut ev = json!({"e": "probe", "kind": "crash", "pos": pos, "img": desc, "tr": tr, "wide": wide,
                                     "res": res, "rc": rc_of(&res), "cls": res.rsplit(':').next().unwrap_or(""),
                                     "obs": r["obs"], "files_after": r["files_after"], "same": same});
                 if let Some(c) = r.get("cont") {
@@ -641,19 +651,33 @@ pub fn damage_probes(fslog: &[FsRec], dirkey: &str, cfg: &Cfg, opts: &Value, see
             out.push(ProbeOut { pos, ev });
         }
     }
-    // every middle chunk removed
+    // every middle chunk removed -- on the final image, and on the images a crash right after a rotation
+    // produces (newest chunk empty / cut inside its head record)
     for name in files.keys() {
         if *name == newest || *name == oldest {
             continue;
         }
-        let mut f2 = files.clone();
-        f2.remove(name);
-        let mut ev = run_image_probe(&root, &format!("m{}", n), &f2, cfg, true, false, &newest);
-        n += 1;
-        ev["e"] = json!("probe");
-        ev["kind"] = json!("missing");
-        ev["ck"] = json!(shim::chunk_of(name));
-        out.push(ProbeOut { pos, ev });
+        for variant in 0..3 {
+            let mut f2 = files.clone();
+            f2.remove(name);
+            match variant {
+                1 => {
+                    f2.insert(newest.clone(), vec![]);
+                }
+                2 => {
+                    let c = &files[&newest];
+                    f2.insert(newest.clone(), c[..c.len().min(7)].to_vec());
+                }
+                _ => {}
+            }
+            let mut ev = run_image_probe(&root, &format!("m{}", n), &f2, cfg, true, false, &newest);
+            n += 1;
+            ev["e"] = json!("probe");
+            ev["kind"] = json!("missing");
+            ev["ck"] = json!(shim::chunk_of(name));
+            ev["newest_cut"] = json!(variant);
+            out.push(ProbeOut { pos, ev });
+        }
     }
     let _ = shim::unobserved(|| std::fs::remove_dir_all(&root));
     out
